@@ -2270,6 +2270,11 @@ def rand_socks_program(rng):
                 kw["ndgrams"] = rng.randint(1, 5)
                 kw["udp_via"] = rng.choice(["ip", "name", "mixed", "short-first"])
             add(**kw)
+        elif r < 0.62:
+            # random corruption of the negotiation bytes
+            add(cmd=rng.choice(["connect", "bind"] + (["udp"] if ver == 5 else [])), addr=rng.choice(["ip", "name"]) if ver == 5 else "ip",
+                target="up", up=5, down=5, mutate="random", mutval=rng.randint(1, 1 << 30))
+            add(cmd="connect", addr="ip", target="up", up=50, down=50)
         elif r < 0.8:
             f, vals = rng.choice(SOCKS_MUT5 if ver == 5 else SOCKS_MUT4)
             kw = {"cmd": "connect", "addr": "name" if f == "namelen" else "ip", "target": "up", "up": 5, "down": 5,
